@@ -702,17 +702,18 @@ BLOB_KINDS = {
     "nested-record+object-field": (_nested_record_like, {"blobs_dtype": [("in", [("vec", object), ("t", float)]), ("s", float)]}),
 }
 
-# OPEN (reported to the coordinator, witness `F41_record_subarray_of_objects_alias`): numpy's copy.deepcopy does not descend into a
-# SUB-ARRAY of objects inside a record dtype ([("vs", object, (2,))]), so on the unchanged tree such blobs are still shared.  The
-# kind is kept out of the every-run suites until /repo is repaired or the finding is recorded; `record_oracle(OPEN_RECORD_DTYPES)`
-# and `blob_run("record+subarray-of-objects", …)` reproduce it.
-OPEN_BLOB_KINDS = {
-    "record+subarray-of-objects": (_subarray_objects_like, {"blobs_dtype": [("vs", object, (2,)), ("s", float)]}),
-}
-OPEN_RECORD_DTYPES = [[("vs", object, (2,)), ("s", float)]]
+# F41 (fixed): numpy's copy.deepcopy does not descend into a SUB-ARRAY of objects inside a record dtype ([("vs", object, (2,))]);
+# `_deepcopy_array` walks the fields instead.  The kind is part of the every-run suites since the repair.
+BLOB_KINDS["record+subarray-of-objects"] = (_subarray_objects_like, {"blobs_dtype": [("vs", object, (2,)), ("s", float)]})
+OPEN_BLOB_KINDS = {}
+OPEN_RECORD_DTYPES = []
+
+RECORD_DTYPES = [[("vs", object, (2,)), ("s", float)]]
 
 RECORD_DTYPES = [
     [("vec", object), ("s", float)],
+    [("vs", object, (2,)), ("s", float)],
+    [("r", [("o", object), ("t", float)], (2,)), ("s", float)],
     [("in", [("vec", object), ("t", float)]), ("s", float)],
     [("a", float), ("b", float, (2,))],
     object,
